@@ -501,6 +501,71 @@ pub fn worker(w: &mut WorkerCtx) {
         }
         w.count("distinct_trees_with_links", if tree.nodes.values().any(|n| n.is_link()) { 1 } else { 0 });
     }
+    // ---- labelled sampling supplement (never decides alone): seeded random multi-step histories from
+    // the empty sandbox, both backends in lock-step; a history ends at the first divergence or when the
+    // state leaves the statement's domain (a link that dangles or points to a link)
+    let mut rng = Rng(w.seed ^ (0xC02 + w.shard * 7919 + euid as u64));
+    let n_hist = w.tier.pick(150u64, 3000u64);
+    for _ in 0..n_hist {
+        sb.reset();
+        let _ = std::env::set_current_dir(&sbr);
+        let mem = Memfs::new();
+        if mem.mkdir_p(&sbr).is_err() || mem.set_cwd(&sbr).is_err() {
+            break;
+        }
+        let mut hist: Vec<String> = vec![];
+        for _step in 0..6 {
+            let oi = rng.below(ops.len() as u64) as usize;
+            if matches!(ops_rel[oi], Op::SetCwd(..)) {
+                continue; // relative arguments are classified against the sandbox root
+            }
+            let cur = match abstract_dump(&mem.verif_dump()).and_then(|t| sub_tree(&t, &sbr)) {
+                Ok(t) => t,
+                Err(_) => break,
+            };
+            if !cur.links_resolve() || outside_domain(&cur, &ops_rel[oi]) {
+                if !cur.links_resolve() {
+                    break;
+                }
+                continue;
+            }
+            let od = apply(&stdfs, &ops[oi]);
+            let om = apply(&mem, &ops[oi]);
+            hist.push(ops_rel[oi].render());
+            w.count("random_history_steps", 1);
+            let cls = arg_class(&cur, &ops_rel[oi]);
+            let name = ops_rel[oi].name();
+            let h2 = hist.clone();
+            let case = || J::obj([("random_history", J::strs(h2.iter())), ("uid", J::i(euid as i64))]);
+            let ctx_txt = || format!("history {:?} from the empty sandbox (uid {}); tree before the last call [{}]", hist, euid, cur.render());
+            if od.panicked() || om.panicked() {
+                w.vio(&format!("C02 {} panic [{}]", name, cls), || format!("{}: stdfs {} / memfs {}", ctx_txt(), od.brief(), om.brief()), case);
+                break;
+            }
+            if od.ok != om.ok {
+                w.vio(&format!("C02 {} result stdfs={} memfs={} [{}]", name, if od.ok { "Ok" } else { "Err" }, if om.ok { "Ok" } else { "Err" }, cls), || format!("{}: Stdfs returned {} but Memfs returned {}", ctx_txt(), unroot(&od.brief(), &sbr), unroot(&om.brief(), &sbr)), case);
+                break;
+            }
+            if od.ok && od.val != om.val && !owner_value_op(&ops_rel[oi]) {
+                w.vio(&format!("C02 {} value [{}]", name, cls), || format!("{}: Stdfs returned {:?} but Memfs returned {:?}", ctx_txt(), unroot(&od.val, &sbr), unroot(&om.val, &sbr)), case);
+                break;
+            }
+            let partial = !od.ok && matches!(ops_rel[oi], Op::Copy(..) | Op::CopyB(..) | Op::Chmod(..) | Op::ChmodB(..) | Op::Chown(..) | Op::ChownB(..));
+            match (observe_disk(&sbr), abstract_dump(&mem.verif_dump()).and_then(|t| sub_tree(&t, &sbr))) {
+                (Ok(d), Ok(m)) => {
+                    if partial {
+                        break; // traversal-order dependent partial result: the two states may legitimately differ
+                    }
+                    if let Some((c, detail)) = tree_diff(&d, &m, false, euid, egid) {
+                        w.vio(&format!("C02 {} tree:{} (results stdfs={} memfs={}) [{}]", name, c, if od.ok { "Ok" } else { "Err" }, if om.ok { "Ok" } else { "Err" }, cls), || format!("{}: resulting trees differ: {}", ctx_txt(), detail), case);
+                        break;
+                    }
+                },
+                _ => break,
+            }
+        }
+        w.count("random_histories", 1);
+    }
     let _ = std::env::set_current_dir("/");
 }
 
@@ -544,6 +609,8 @@ pub fn run(ctx: &Ctx) -> i32 {
         ("pairs_first_uid", J::i(pairs_own)),
         ("state_changing_pairs", J::i(g.c("state_changing_pairs"))),
         ("effective_uids", J::Arr(uid_runs)),
+        ("sampling_supplement_random_histories", J::i(g.c("random_histories"))),
+        ("sampling_supplement_random_history_steps", J::i(g.c("random_history_steps"))),
         ("exhaustive", J::Bool(true)),
         ("explanation", J::s("states = (tree, uid) configurations materialised on disk and in Memfs; transitions = (tree, call) pairs executed on both backends and compared (result, value, resulting tree seen through std::fs only vs alpha(dump))")),
     ]);
